@@ -11,10 +11,14 @@ import tempfile
 import time
 
 VERIF = "/verif"
-REPO = "/repo"
+# VV_REPO=<scratch worktree> runs the same machinery against another tree (mutation testing) with its own build dirs;
+# registered checks never set it and therefore always build /repo's working tree.
+REPO = os.environ.get("VV_REPO", "/repo").rstrip("/")
 BUILD = f"{VERIF}/build"
-RB = f"{BUILD}/repo-asan"
-HB = f"{BUILD}/h"
+_TAG = "" if REPO == "/repo" else "-" + hashlib.sha1(REPO.encode()).hexdigest()[:8]
+RB = f"{BUILD}/repo-asan{_TAG}"
+HB = f"{BUILD}/h{_TAG}"
+EVID = f"{VERIF}/evidence" if not _TAG else f"{BUILD}/evidence{_TAG}"
 WORK = f"{BUILD}/work"
 FOUND = f"{VERIF}/replays/found"
 
@@ -61,7 +65,7 @@ def build_repo(targets=()):
     """(Re)build the hooks-on sanitizer build of /repo's working tree. Raises on failure."""
     t0 = time.time()
     r = subprocess.run([f"{VERIF}/vv/repo_build.sh", *targets], stdout=subprocess.PIPE, stderr=subprocess.STDOUT,
-                       text=True)
+                       text=True, env=dict(os.environ, VV_REPO=REPO, VV_RB=RB))
     if r.returncode != 0:
         log(r.stdout[-6000:])
         raise BuildError("repo build failed")
@@ -138,7 +142,7 @@ def gen_harness_ninja():
 
 
 def build_harness(names):
-    with Lock(f"{BUILD}/.h-build.lock"):
+    with Lock(f"{BUILD}/.h-build{_TAG}.lock"):
         gen_harness_ninja()
         r = subprocess.run(["ninja", "-C", HB, *names], stdout=subprocess.PIPE, stderr=subprocess.STDOUT, text=True)
         if r.returncode != 0:
@@ -294,9 +298,9 @@ def write_evidence(prop, tier, seed, level, rule, merged, assumptions, wall, vio
         cov.update(extra)
     ev = dict(property_id=prop, tier=tier, seed=int(seed), level=level, coverage=cov, assumptions=assumptions,
               wall_s=round(wall, 2), violations=int(violations))
-    os.makedirs(f"{VERIF}/evidence", exist_ok=True)
-    tmp = f"{VERIF}/evidence/{prop}.json.tmp"
+    os.makedirs(EVID, exist_ok=True)
+    tmp = f"{EVID}/{prop}.json.tmp"
     with open(tmp, "w") as f:
         json.dump(ev, f, indent=1, default=str)
-    os.replace(tmp, f"{VERIF}/evidence/{prop}.json")
+    os.replace(tmp, f"{EVID}/{prop}.json")
     return ev
